@@ -796,11 +796,11 @@ func replayTokenizer(h []pstep, v int) {
 			wantCom = comLen[comSQL]
 		}
 		// a run cancelled half-way has captured a prefix of the comments, and keeps it until the next call that
-		// tokenizes or clears (SetDialect leaves the captured comments alone)
+		// tokenizes or clears
 		switch s.Op {
 		case "CtxFire":
 			partial = true
-		case "SetDialect":
+		case "SetDialect", "CtxDone": // neither tokenizes nor clears (a context that is already done returns at once)
 		default:
 			partial = false
 		}
